@@ -1,0 +1,15 @@
+//go:build verif
+
+package hsmsss
+
+import "github.com/arloliu/go-secs/v2/hsms"
+
+// VerifCore returns the shared hsms engine an hsmsss.Connection decorates (build tag `verif` only), so the
+// harness can hand it to the hsms verification hooks. Add-only.
+func VerifCore(c Connection) hsms.Connection {
+	if cc, ok := c.(*connection); ok {
+		return cc.Connection
+	}
+
+	return nil
+}
